@@ -11,8 +11,8 @@ from .. import cover, monitor
 RULE = ('group "tensors": case i picks source = SOURCES[i % 16] (random SPD entered through each of the 5 '
         'representations; named constants of the 9 crystal-system keyword forms, keyword-name variants cycled; isotropic '
         'by a random modulus pair; SPD with one entry straddling the 1e-9 zeroing threshold), rotation class = '
-        'ROTATIONS[(i // 16) % 6] (Haar, product of 2-3, cubic point-group element, angle 1e-10..1e-4, about a '
-        'coordinate axis incl. pi-1e-7, orthogonal non-unit/integer rows), scale 0.006/1/150, condition number '
+        'ROTATIONS[(i // 16) % 7] (Haar, product of 2-3, cubic point-group element, angle 5e-9..1e-4, about a '
+        'coordinate axis incl. pi-1e-7, orthogonal non-unit/integer rows, angle 1e-10..5e-9), scale 0.006/1/150, condition number '
         '10/300/1e4, strain class (5), ndarray/list containers.  group "isotropic": i enumerates the 15 modulus pairs '
         'x 5 Poisson classes (0, 1e-4..1e-2, <1/4, >1/4, 1/2-1e-4..1e-2) x 3 scales x alias names x keyword order.  '
         'Every case is non-trivial (stiffness is SPD, never a multiple of the identity); distinct = distinct '
@@ -287,21 +287,23 @@ def install_monitors(rec, EC):
 class Case:
     """Ground truth and derived bounds of one stiffness."""
 
-    def __init__(self, c6, zs=None):
+    def __init__(self, c6, zs=None, pert=0.0):
         self.c6 = np.array(c6, float)
+        self.pert = pert        # relative size of a dense perturbation the entry route may add (conditioning of a modulus pair)
         self.cmax = float(np.abs(self.c6).max())
         self.cond = max(O.cond6(self.c6), 10.0)
         self.s6 = O.compliance6(self.c6)
         self.smax = float(np.abs(self.s6).max())
         # zs: relative size of a truth entry that the setter may zero (0 when there is none)
         self.zs = zslack(self.c6, THR_SET) / self.cmax if zs is None else zs
+        self.dz = self.zs + self.pert
         self.exp = {r: oracle_repr(self.c6, r) for r in GEN.REPRS}
 
     def tol(self, r, extra_rel=0.0):
         """Bound for a value of representation r read from an object holding this stiffness."""
         if r.startswith('C'):
-            return ztol(self.exp[r], THR_SET, extra=extra_rel * self.cmax)
-        return (1e-13 * self.cond + 40 * self.cond * self.zs + extra_rel * self.cond) * self.smax
+            return ztol(self.exp[r], THR_SET, extra=(extra_rel + self.pert) * self.cmax)
+        return (1e-13 * self.cond + 40 * self.cond * (self.zs + self.pert) + extra_rel * self.cond) * self.smax
 
 
 def read_all(ctx, obj, tag):
@@ -332,20 +334,20 @@ def check_tensor_laws(rec, got, case, eps, tag):
     ts = case.tol('Sijkl')
     rec.check(max(ds[:2]) <= 1e-15 * case.smax, 'Sijkl has the minor symmetries', 'symmetry:minor:Sijkl', defect=ds)
     rec.check(ds[2] <= 2 * ts, 'Sijkl has the major symmetry', 'symmetry:major:Sijkl', defect=ds, tol=ts)
-    tid = 1e-12 * case.cond + 100 * case.cond * case.zs
+    tid = 1e-12 * case.cond + 100 * case.cond * case.dz
     rec.close(tid, O.contract(c4, s4), O.sym_identity(), 'Cijkl : Sklmn is the symmetric identity', 'identity:C:S', tag=tag)
     rec.close(tid, O.contract(s4, c4), O.sym_identity(), 'Sijkl : Cklmn is the symmetric identity', 'identity:S:C', tag=tag)
     # the same linear law through every representation
     en = float(np.abs(eps).max())
     sig = O.stress(c4, eps)
-    tsig = 40 * (1e-13 + case.zs) * case.cmax * en
+    tsig = 40 * (1e-13 + case.dz) * case.cmax * en
     rec.close(tsig, c6 @ O.strain_voigt(eps), O.stress_voigt(sig), 'Cij . (engineering strain vector) equals Cijkl : strain', 'law:Cij', eps=eps)
     rec.close(tsig, c9 @ O.nine_vector(eps), O.nine_vector(sig), 'Cij9 . (nine strain components) equals Cijkl : strain', 'law:Cij9', eps=eps)
-    teps = (1e-11 * case.cond + 400 * case.cond * case.zs) * en
+    teps = (1e-11 * case.cond + 400 * case.cond * case.dz) * en
     rec.close(teps, O.strain_from_voigt(s6 @ O.stress_voigt(sig)), eps, 'Sij . stress vector returns the strain', 'law:Sij', eps=eps)
     rec.close(teps, np.tensordot(s4, sig, axes=([2, 3], [0, 1])), eps, 'Sijkl : stress returns the strain', 'law:Sijkl', eps=eps)
     e6 = O.strain_voigt(eps)
-    rec.close(40 * (1e-13 + case.zs) * case.cmax * en * en, 0.5 * e6 @ c6 @ e6, O.energy(c4, eps),
+    rec.close(40 * (1e-13 + case.dz) * case.cmax * en * en, 0.5 * e6 @ c6 @ e6, O.energy(c4, eps),
               'strain-energy density is the same through Cij and Cijkl', 'law:energy')
 
 
@@ -355,10 +357,11 @@ def run_tensor_case(ctx, EC, i):
     src = GEN.SOURCES[i % nS]
     sweep = i // nS
     rotc = GEN.ROTATIONS[sweep % nR]
-    scale = GEN.SCALES[(sweep // nR) % 3] * float(rng.uniform(0.5, 2.0))
-    condc = GEN.CONDS[(sweep // 2) % 3]
-    strainc = GEN.STRAINS[(sweep // 3) % 5]
-    as_list = bool((sweep // 2) % 2)
+    q = sweep // nR
+    scale = GEN.SCALES[q % 3] * float(rng.uniform(0.5, 2.0))
+    condc = GEN.CONDS[(q // 3 + sweep) % 3]
+    strainc = GEN.STRAINS[sweep % 5]
+    as_list = bool((q + sweep) % 2)
     variant = sweep // 5
 
     # ---- ground truth and the keyword arguments that enter it ---------------
@@ -370,7 +373,7 @@ def run_tensor_case(ctx, EC, i):
         c6 = GEN.spd_generic(rng, condc) * scale
         kw = None
     elif src == 'tiny-entry':
-        c6, t = GEN.tiny_entry(rng)
+        c6, t = GEN.tiny_entry(rng, sweep % 3)
         c6 = c6 * scale
         entry = ('Cij', 'Cij9', 'Cijkl')[variant % 3]
         kw = None
@@ -380,11 +383,11 @@ def run_tensor_case(ctx, EC, i):
         group = 'isotropic'
         lam, mu, nu = GEN.iso_truth(rng, GEN.NU_CLASSES[1 + variant % 4], scale)
         c6 = O.iso_c6(lam, mu)
-        pair = O.ISO_PAIRS[int(rng.integers(0, 15))]
+        pair = O.ISO_PAIRS[sweep % 15]
         kw = GEN.iso_kwargs(O.iso_moduli(lam, mu), pair, alias=bool(variant % 2), reverse=False)
         dl, dm = O.iso_pair_condition(lam, mu, *pair)
         entry = 'pair'
-        zs = 10 * (dl + 2 * dm) / np.abs(c6).max()      # conditioning of the pair enters like a perturbation of the truth
+        zs = 10 * (dl + 2 * dm) / np.abs(c6).max()      # conditioning of the pair: a dense relative perturbation of the truth
     else:
         group, variants = GEN.SYSTEMS[src]
         names = variants[variant % len(variants)]
@@ -393,9 +396,10 @@ def run_tensor_case(ctx, EC, i):
         entry = 'named'
         if src in ('hexagonal', 'rhombohedral', 'rhombohedral+C15') and 'C66' in kw and 'C11' in kw and 'C12' in kw:
             direct_method = GEN.SYSTEM_METHOD[src]       # the keyword count would dispatch elsewhere: also call the method itself
-    case = Case(c6, zs)
     if src == 'isotropic':
-        case.zs = 0.0 if zs < 1e-13 else zs
+        case = Case(c6, 0.0, pert=zs)
+    else:
+        case = Case(c6, zs)
 
     R1 = GEN.rotation(rng, rotc)
     R2 = GEN.rotation(rng, GEN.ROTATIONS[(sweep + 1 + variant) % nR])
@@ -449,7 +453,7 @@ def run_tensor_case(ctx, EC, i):
                 with ctx.guard(f'ElasticConstants({B}=C.{B})', f'roundtrip:{B}'):
                     Y = EC(**{B: got[B]})
                     extra = 0.0 if B.startswith('C') else 1e-12 * case.cond
-                    rec.close(ztol(got['Cij'], THR_SET, extra=(extra + 40 * case.cond * case.zs * (0 if B.startswith('C') else 1)) * case.cmax), Y.Cij, got['Cij'],
+                    rec.close(ztol(got['Cij'], THR_SET, extra=(extra + 40 * case.cond * case.dz * (0 if B.startswith('C') else 1)) * case.cmax), Y.Cij, got['Cij'],
                               f'ElasticConstants({B}=C.{B}).Cij == C.Cij', f'roundtrip:{B}')
                     rec.count('roundtrips')
 
@@ -457,11 +461,11 @@ def run_tensor_case(ctx, EC, i):
     if group is not None and group != 'triclinic':
         for k, g in enumerate(O.symmetry_rotations(group, rng)):
             if 'Cijkl' in got:
-                rec.close(BASE * case.cmax + 20 * case.zs * case.cmax, O.rotate4(got['Cijkl'], g), got['Cijkl'],
+                rec.close(BASE * case.cmax + 20 * case.dz * case.cmax, O.rotate4(got['Cijkl'], g), got['Cijkl'],
                           'Cijkl built from a crystal system\'s constants is invariant under the system\'s rotations', f'invariant:{src}')
             with ctx.guard('transform by a symmetry rotation', f'invariant:{src}:transform'):
                 T = C.transform(container(g, as_list))
-                rec.close(ztol(c6, THR_TRF, extra=20 * case.zs * case.cmax), T.Cij, c6, 'transform by a symmetry rotation of the crystal system returns the same Cij', f'invariant:{src}:transform')
+                rec.close(ztol(c6, THR_TRF, extra=20 * case.dz * case.cmax), T.Cij, c6, 'transform by a symmetry rotation of the crystal system returns the same Cij', f'invariant:{src}:transform')
             rec.count('symmetry-rotations')
 
     check_transform(ctx, C, case, R1, R2, eps, rotc, as_list)
@@ -472,7 +476,7 @@ def run_tensor_case(ctx, EC, i):
 def check_transform(ctx, C, case, R1, R2, eps, rotc, as_list):
     rec = ctx.rec
     c6, cmax = case.c6, case.cmax
-    zc = case.zs * cmax                                   # what the construction itself may have zeroed
+    zc = case.dz * cmax                                   # what the construction itself may have zeroed
     R1u, R2u = O.unit_rows(R1), O.unit_rows(R2)
     E1 = O.rotate_voigt(c6, R1u)
     E12 = O.rotate_voigt(c6, R2u @ R1u)
@@ -529,7 +533,7 @@ def check_moduli(ctx, C, case):
             vals = {}
             for style in ('Voigt', 'Reuss', 'Hill'):
                 vals[style] = getattr(C, which)(style)
-                tol = (1e-13 * case.cond + 40 * case.cond * case.zs) * abs(ref[which, style])
+                tol = (1e-13 * case.cond + 40 * case.cond * case.dz) * abs(ref[which, style])
                 rec.close(tol, vals[style], ref[which, style], f'{which}({style}) equals the oracle\'s tensor contraction', f'moduli:{which}:{style}')
             rec.close(1e-14 * abs(vals['Hill']), getattr(C, which)(), vals['Hill'], f'{which}() defaults to Hill', f'moduli:{which}:default')
             rec.check(vals['Reuss'] <= vals['Voigt'] * (1 + 1e-12 * case.cond), f'Reuss {which} <= Voigt {which}', f'moduli:{which}:order')
@@ -563,7 +567,7 @@ def check_normalized(ctx, C, case, src, group, sweep):
             fixed = system == 'triclinic' or invariance_defect(c6, NORMAL_GROUP[system]) <= 1e-12 * cmax
             if fixed:
                 # the tensor already has the system's form: normalising must not change it
-                extra = (20 * case.zs) * cmax
+                extra = (20 * case.dz) * cmax
                 rec.close(ztol(c6, THR_SET, extra=extra), n1, c6, 'normalized_as(s) leaves a tensor with the symmetry of s unchanged', key + ':fixed-point', source=src)
                 rec.check(C.is_normal(system), 'is_normal(s) is True for a tensor with the symmetry of s', key + ':is_normal', source=src)
                 rec.count('normalized:fixed-point-evaluations')
@@ -654,7 +658,7 @@ def run(ctx):
     for s in GEN.SOURCES:
         rec.floor('class:source:' + s, 50)
     for r in GEN.ROTATIONS:
-        rec.floor('class:rotation:' + r, 150)
+        rec.floor('class:rotation:' + r, 120)
     for p in O.ISO_PAIRS:
         rec.floor('iso:pair:' + ','.join(p), 36)
     for c in GEN.NU_CLASSES:
@@ -669,9 +673,9 @@ def run(ctx):
     rec.floor('normalized:fixed-point-evaluations', 500)
     rec.floor('normalized:is_normal-false-evaluations', 300)
     rec.floor('hostile:cond>=3e3', 50)
-    rec.floor('hostile:transform-zeroing-possible', 50)
-    rec.floor('hostile:tiny-entry:below-threshold', 10)
-    rec.floor('hostile:tiny-entry:above-threshold', 10)
+    rec.floor('hostile:transform-zeroing-possible', 40)
+    rec.floor('hostile:tiny-entry:below-threshold', 15)
+    rec.floor('hostile:tiny-entry:above-threshold', 15)
     rec.floor('class:container:list', 300)
     rec.floor('reach:lines:isotropic-pairs', 60)
     rec.floor('reach:lines:transform', 5)
